@@ -25,8 +25,10 @@ RULE = ("operation histories (2..40 ops) over {observe, tick, merge, split, prom
         "by the real validator (accepted / rejected), one seeded PRNG; non-trivial = at least one branch tag other than "
         "'default' (clamp hit, pair cap hit, top-k cut, drop at floor, tie, ...); distinct by canonical JSON of the case")
 ASSUMPTIONS = [
-    "settings reach gel.py as finite floats / ints (the non-finite settings the validator lets through - alpha=inf, "
-    "clamp=+-inf, floor=NaN - are exercised in a separate stream and classified under their own finding key)",
+    "settings reach gel.py as finite floats / ints: enforced by the validator (graph.update.alpha / clamp_min / clamp_max must be finite, "
+    "decay.floor >= 0 and <= clamp_max, half_life_turns an int >= 1) and re-checked on every run - a stream of non-finite settings "
+    "(alpha=inf, clamp=+-inf, floor=NaN/inf) goes through the REAL validator and, should any be accepted, all monitors of that history "
+    "report under key C18:gel:nonfinite_cfg",
     "ids are strings of BMP code points; Python str comparison = lexicographic on code points",
     "theorems are over a linearly ordered field; the Float instance is tied by bit-exact differential execution "
     "(+ - * / abs pow probed bit-identical to CPython) and the monitors are evaluated at Float on the implementation's states",
@@ -72,8 +74,9 @@ CLAIM = {
              "with graph.enabled on worlds with 4-7 episodes / scripted T2 hits, observe_top_k below the number of hits and t2.ranking "
              "weights that list hits away from score order; after every turn state.graph must equal the model's observe on ALL hits T2 "
              "returned (with their scores) followed by tick(1), and the Lean monitor obsTopB (theorem C18_observe_topk_by_score) is "
-             "evaluated on the stores captured around the real gel_observe call. Open finding: non-finite settings "
-             "(alpha=inf, clamp=+-inf, floor=NaN) pass the validator and produce NaN/inf weights (key C18:gel:nonfinite_cfg)."),
+             "evaluated on the stores captured around the real gel_observe call. Fixed finding C18:gel:nonfinite_cfg: "
+             "non-finite settings (alpha=inf, clamp=+-inf) used to pass the validator and produce NaN/inf weights; the validator now rejects them "
+             "and the stream stays in the generator as a regression guard."),
     "technique": "Lean 4 invariant proofs (induction over op histories, ordered-field carrier, permutation lemma via canonical sort) + exact whole-history correspondence with gel.py + Lean monitors on implementation states",
     "design_ref": "DESIGN.md §4 C18, §5 row 12",
 }
@@ -200,7 +203,10 @@ FLOAT_KEYS = ("threshold", "alpha", "cmin", "cmax", "hl", "floor", "attachW")
 
 def cfg_class(accepted: bool, m: dict) -> str:
     if not all(math.isfinite(m[k]) for k in FLOAT_KEYS):
-        return "nonfinite_cfg" if accepted else "rejected"
+        # accepted non-finite settings: the class of the (fixed) finding C18:gel:nonfinite_cfg - every monitor of such a
+        # history reports under that key, so the violation comes back if the validator lets them through again;
+        # rejected ones are outside the property's quantifier (arithmetic on inf/NaN): exact correspondence only
+        return "nonfinite_cfg" if accepted else "rejected_nonfinite"
     if not accepted:
         return "rejected"
     if not (m["cmin"] <= 0.0 <= m["cmax"]):
@@ -958,6 +964,8 @@ class GelComp(Component):
         rq: List[Tuple[str, dict]] = []
         states = [self._edges_for_lean(t["s"]) for t in trace]
         rq.append(("nonfinite_cfg" if nonfin else "canon", {"c": "gel.mon", "kind": "canon", "cfg": cj, "states": states}))
+        if cls == "rejected_nonfinite":
+            return rq
         if cls != "rejected":
             # all edges: up to (excluding) the first promotion that attaches outside the update clamp
             n_all = len(trace)
@@ -1013,7 +1021,7 @@ class GelComp(Component):
             if tag in CAND_OPS:
                 res.append(("candidates_pure", bool(t.get("pure")),
                             f"op {i} {tag}: the candidate pass changed the store: {t.get('pure_detail')}"))
-                if cfg_class(impl_out["accepted"], m_parse(impl_out["m"])) != "nonfinite_cfg":   # (NaN weights: see the open finding)
+                if cfg_class(impl_out["accepted"], m_parse(impl_out["m"])) not in ("nonfinite_cfg", "rejected_nonfinite"):   # (NaN weights)
                     res.append(("candidates_contract", t.get("contract") is None, f"op {i} {tag}: {t.get('contract')}"))
             if tag == "seed":
                 continue
